@@ -11,5 +11,6 @@ func TestMain(m *testing.M) {
 		"C17sio": C17sio,
 		"C14sio": C14sio,
 		"C15":    C15,
+		"C13sio": C13sio,
 	})
 }
